@@ -205,6 +205,32 @@ def _ev(t):
     return acc
 
 
+def sign_pairs_on_boolean(t):
+    """True if some sign chain with an even, non-zero number of '-' stands in front of a boolean-valued operand.
+    The step table says that the signs are applied; it does not say whether two signs that cancel leave the truth value
+    (identity, as a single '+' does) or its number 0/1 (Python's -(-False)): the value is the same, only its class is not
+    determined, so the caller compares such cases by value alone."""
+    k = t[0]
+    if k == "num":
+        return False
+    if k == "una":
+        n = sum(1 for s in t[1] if s == "-")
+        if n and n % 2 == 0:
+            try:
+                if isinstance(_ev(t[2]), (bool, np.bool_)):
+                    return True
+            except Exception:
+                return False
+        return sign_pairs_on_boolean(t[2])
+    if k in ("par", "not"):
+        return sign_pairs_on_boolean(t[1])
+    if k == "f1":
+        return sign_pairs_on_boolean(t[2])
+    if k == "f2":
+        return sign_pairs_on_boolean(t[2]) or sign_pairs_on_boolean(t[3])
+    return sign_pairs_on_boolean(t[2]) or any(sign_pairs_on_boolean(o) for _op, o in t[3])
+
+
 # --------------------------------------------------------------------------- classification helpers
 
 def stats(t, acc=None, fdepth=0):
